@@ -1,0 +1,48 @@
+//go:build verif
+
+// Contracts for package synchronizer, checked by /verif/govc (comment-only file).
+package synchronizer
+
+// ---- timeout collector: a bag of timeouts with at most one entry per (view, sender)
+//@ pure func cntv(ts []hotstuff.TimeoutMsg, n int, v hotstuff.View) int = n <= 0 ? 0 : cntv(ts, n - 1, v) + (ts[n - 1].View == v ? 1 : 0) decreases n
+//@ pred nodup(ts []hotstuff.TimeoutMsg) = forall i int, j int :: {ts[i].ID, ts[j].ID} 0 <= i && i < j && j < len(ts) ==> !(ts[i].View == ts[j].View && ts[i].ID == ts[j].ID)
+//@ pred isdup(ts []hotstuff.TimeoutMsg, t hotstuff.TimeoutMsg) = exists i int :: {ts[i].ID} 0 <= i && i < len(ts) && ts[i].View == t.View && ts[i].ID == t.ID
+
+// Equal views on a prefix give equal counts (two-state: a in the old heap, b in the new one).
+//@ lemma cntv_same(a []hotstuff.TimeoutMsg, b []hotstuff.TimeoutMsg, n int, v hotstuff.View) property C08
+//@   opt twostate
+//@   requires forall j int :: {b[j].View} 0 <= j && j < n ==> b[j].View == old(a[j].View)
+//@   ensures cntv(b, n, v) == old(cntv(a, n, v))
+//@   decreases n < 0 ? 0 : n
+//@   proof if n > 0 { use cntv_same(a, b, n - 1, v) }
+
+// The no-duplicate invariant only depends on the (view, id) pairs.
+//@ lemma nodup_same(a []hotstuff.TimeoutMsg, b []hotstuff.TimeoutMsg) property C08
+//@   opt twostate
+//@   requires len(b) == old(len(a)) && (forall j int :: {b[j].ID} {b[j].View} 0 <= j && j < len(b) ==> b[j].ID == old(a[j].ID) && b[j].View == old(a[j].View))
+//@   requires old(nodup(a))
+//@   ensures nodup(b)
+
+//@ func (*timeoutCollector).add property C08
+//@   requires s.config != nil && nodup(s.timeouts)
+//@   ensures [inv-noquorum] !result1 ==> nodup(s.timeouts)
+//@   ensures [P1-only-that-view] result1 ==> forall i int :: 0 <= i && i < len(result0) ==> result0[i].View == timeout.View
+//@   ensures [P2-distinct] result1 ==> forall i int, j int :: 0 <= i && i < j && j < len(result0) ==> result0[i].ID != result0[j].ID
+//@   ensures [P3-quorum] result1 ==> len(result0) >= hotstuff.Q(len(s.config.replicas))
+//@   ensures [P4-exactly-when] result1 == (!old(isdup(s.timeouts, timeout)) && old(cntv(s.timeouts, len(s.timeouts), timeout.View)) + 1 >= hotstuff.Q(len(s.config.replicas)))
+//@   loop 0 invariant [content] len(s.timeouts) == old(len(s.timeouts)) + 1 && s.timeouts[old(len(s.timeouts))] == timeout && (forall j int :: {s.timeouts[j].View} {s.timeouts[j].ID} 0 <= j && j < old(len(s.timeouts)) ==> s.timeouts[j] == old(s.timeouts[j]))
+//@   loop 0 invariant [cap] cap(timeoutList) == len(s.timeouts) && len(timeoutList) <= rangeindex + 1
+//@   loop 0 invariant [nodup] nodup(s.timeouts)
+//@   loop 0 invariant [sep] disjoint(timeoutList, s.timeouts) && fresh(timeoutList)
+//@   loop 0 invariant [len] len(timeoutList) == cntv(s.timeouts, rangeindex + 1, timeout.View)
+//@   loop 0 invariant [view] forall i int :: {timeoutList[i].View} 0 <= i && i < len(timeoutList) ==> timeoutList[i].View == timeout.View
+//@   loop 0 invariant [rest] forall i int, m int :: {timeoutList[i].ID, s.timeouts[m].ID} 0 <= i && i < len(timeoutList) && rangeindex < m && m < len(s.timeouts) && s.timeouts[m].View == timeout.View ==> timeoutList[i].ID != s.timeouts[m].ID
+//@   use loop 0 head :: cntv_same(old(s.timeouts), s.timeouts, old(len(s.timeouts)), timeout.View)
+//@   loop 0 invariant [distinct] forall i int, j int :: {timeoutList[i].ID, timeoutList[j].ID} 0 <= i && i < j && j < len(timeoutList) ==> timeoutList[i].ID != timeoutList[j].ID
+//@   use return 0 :: nodup_same(old(s.timeouts), s.timeouts)
+//@   modifies s.timeouts, s.timeouts[*], alloc
+
+//@ func (*timeoutCollector).deleteOldViews property C08
+//@   ensures [filtered] forall i int :: {s.timeouts[i].View} 0 <= i && i < len(s.timeouts) ==> s.timeouts[i].View >= currentView
+//@   ensures [shrinks] len(s.timeouts) <= old(len(s.timeouts))
+//@   modifies s.timeouts, s.timeouts[*]
